@@ -33,6 +33,8 @@ package pcache
 //@   loop 1: exhaustive
 //@   loop 2: exhaustive
 //@   ensures-local result1 == nil && result0 != nil && rpi.provider.ExtendedProviders != nil ==> (ok ==> count("loop*1") >= 1) && (!override ==> count("loop*2") >= 1)
+// whether there is a context-level entry is the record's answer for exactly this context ID - the empty one included
+//@   ensures-local result1 == nil && result0 != nil && rpi.provider.ExtendedProviders != nil ==> (ok <==> has(rpi.ctxExtended, strof(ctxID))) && (ok ==> override == rpi.ctxExtended[strof(ctxID)].override)
 //@   loop 1: iteration ghost did := false
 //@   loop 2: iteration ghost did := false
 //@   at call append#2: ghost did := true
@@ -92,7 +94,7 @@ package pcache
 // readOnly. (C06): a refresh that consumed a sequence number has published a
 // snapshot before it returns - whatever the reason for returning.
 //@ func (*ProviderCache).Refresh
-//@   property C06 C07
+//@   property C06 C07 C17
 //@   requires pcOK(pc) && ctx != nil && !held(pc.writeLock)
 //@   modifies mapof(pc.write), pc.seq, pc.read, objects(cacheInfo)
 //@   ensures-local count("atomic.store:read") >= 1 || pc.seq == old(pc.seq)
@@ -144,7 +146,7 @@ package pcache
 // a provider that already has an entry in the write map (including a negative
 // one) is answered from the published snapshot without querying any source.
 //@ func (*ProviderCache).fetchMissing
-//@   property C06 C07
+//@   property C06 C07 C17
 //@   requires pcOK(pc) && ctx != nil && !held(pc.writeLock)
 //@   modifies mapof(pc.write), pc.read, objects(cacheInfo)
 //@   ensures pcOK(pc) && !held(pc.writeLock)
